@@ -130,6 +130,14 @@ PROVED = {
          "chunking (C04_refines). The local statement C12_truncated_tag holds at any reader state. PARTIAL: placeholder-free declared paths; that "
          "every prefix of a valid document is such a truncated document is not proved in Coq — the correspondence run cuts generated documents at "
          "every byte position (exhaustively per document) and compares with an independently computed expectation.", ""),
+ "C14": ("Theorems (Proofs/Recover.v): C14_damaged_run_partial — for every strict configuration and every document with a run of junk inserted "
+         "between two tags at any nesting depth (masters of known or unknown size), if the following tag still fits inside every enclosing known-size "
+         "master after the shift and no header check passes at any junk position, then next() yields the tags before the junk unchanged, exactly one "
+         "error, try_recover() succeeds (it walks exactly over the junk and enlarges every open known-size master by the skipped distance) and all "
+         "remaining tags follow; C14_recovery_loses_nothing_partial — the tag sequence, error and recovery aside, equals that of the undamaged document; "
+         "try_recover never moves backwards and fails only with end of input (all states). Header checks are shown to depend only on the parse fields "
+         "of the state. PARTIAL: placeholder-free declared paths; the junk condition is semantic (per position), the generator of the correspondence run "
+         "draws junk from byte classes without ids in the specification and computes the premise independently.", ""),
  "C20": ("PARTIAL + known finding D15. Theorem C20_first_read_partial: if the source delivers the whole input (<= 64 KiB) with its first read the "
          "async iterator yields exactly the abstract reader's run (= the blocking iterator by C04_refines), ending once. C20_refuted exhibits a schedule "
          "(first read of 1 byte) on which the faithful model differs from the blocking run: the property as stated is violated by nonblocking.rs "
